@@ -274,7 +274,7 @@ def systematic_sources(basic):
             src([("PA", pa + [extra])], [(hm(off + 7), "-", "LMT", "1980"), (hm(off), "PA", "A%sT")], "%s/extra-rule-same-month-%d" % (h, yx))
         # (E) a rule in January / December (DST that ends in January) next to an era change at the start of a year: the
         # transition that starts the era and the rule share (year, month)
-        for rm, rd in (("Jan", "Sun>=15"), ("Jan", "1"), ("Dec", "Sun>=25")):
+        for rm, rd in (("Jan", "Sun>=15"), ("Jan", "1"), ("Dec", "Sun>=25"), ("Jan", "Sun<=7"), ("Jan", "Sun>=1"), ("Jan", "Sat<=6"), ("Dec", "Sun>=26")):
             pe = [("Rule", "PE", 1990, "max", "-", "Nov", "Sun>=1", "2:00", "1:00", "D"), ("Rule", "PE", 1990, "max", "-", rm, rd, "3:00", "0", "S")]
             for form in (["2005"] if basic else ["2005", "2005 Jan 10", "2005 Dec 20"]):
                 for prev in ("-", "PA"):
@@ -282,6 +282,24 @@ def systematic_sources(basic):
                         first = (hm(off + step), "-", "FIX", form) if prev == "-" else (hm(off + step), "PA", "A%sT", form)
                         src([("PA", pa), ("PE", pe)], [(hm(off + 7), "-", "LMT", "1980"), first, (hm(off), "PE", "E%sT")],
                             "%s/jan-rule-%s-%s/%s/%s/%+d" % (h, rm, rd, form, prev, step))
+        # (J) three, four and five rule transitions a year (five needs exactly the transition pool of the extended processor)
+        for k in ((3, 4, 5) if not basic else (3,)):
+            mons = ["Feb", "Apr", "Jun", "Aug", "Oct"][:k]
+            pj = [("Rule", "PJ", 1990, "max", "-", m_, "Sun>=8", "2:00", "1:00" if i_ % 2 == 0 else "0", "D" if i_ % 2 == 0 else "S") for i_, m_ in enumerate(mons)]
+            src([("PJ", pj)], [(hm(off + 7), "-", "LMT", "1980"), (hm(off), "PJ", "J%sT")], "%s/%d-transitions-a-year" % (h, k))
+            if not basic:
+                src([("PA", pa), ("PJ", pj)], [(hm(off + 7), "-", "LMT", "1980"), (hm(off), "PA", "A%sT", "2010 Jul 1"), (hm(off + 60), "PJ", "J%sT")],
+                    "%s/%d-transitions-a-year/after-era-change" % (h, k))
+        # (I) a rule on the last day of a month whose time, in wall-clock terms, falls on the first day of the next month,
+        # next to an era that starts on that first day
+        if not basic:
+            for at in ("23:00u", "24:00", "25:00", "22:30s"):
+                pi = [("Rule", "PI", 1990, "max", "-", "Mar", "31", at, "1:00", "D"), ("Rule", "PI", 1990, "max", "-", "Oct", "lastSun", "3:00", "0", "S")]
+                for form in ("2010 Apr 1", "2010 Apr 1 3:00", "2010 Mar 31 23:00"):
+                    for prev in ("-", "PA"):
+                        first = (hm(off + 60), "-", "FIX", form) if prev == "-" else (hm(off), "PA", "A%sT", form)
+                        src([("PA", pa), ("PI", pi)], [(hm(off + 7), "-", "LMT", "1980"), first, (hm(off), "PI", "I%sT")],
+                            "%s/month-end-rule-%s/%s/%s" % (h, at, form, prev))
         # (H) a policy whose first rules start in the years around the first year of the database (1998..2001) and govern the
         # zone from long before: the time before the first rule has no prior rule (anchor rule / initial letter)
         for fy in (1998, 1999, 2000, 2001):
